@@ -98,6 +98,7 @@ type iJob[T any] interface {
 	Job[T]
 	StatusProvider
 	changeStatus(s status)
+	startProcessing() bool
 	setAckId(id string)
 	setInternalQueue(q IBaseQueue)
 	ack() error
@@ -173,7 +174,54 @@ func (j *job[T]) IsClosed() bool {
 
 // changeStatus updates the job's status to the provided value.
 func (j *job[T]) changeStatus(s status) {
+	// the submitter marks the job queued after it is already visible to the
+	// dispatcher: a late "queued" must never overwrite a later state
+	if s == queued {
+		j.status.CompareAndSwap(created, queued)
+		return
+	}
+
 	j.status.Store(s)
+}
+
+// startProcessing moves the job to processing unless it has been closed.
+// It reports whether the caller may run the job: cancelling and starting a job
+// are decided by the same compare-and-swap, so exactly one of them wins.
+func (j *job[T]) startProcessing() bool {
+	for {
+		s := j.status.Load()
+		if s == closed {
+			return false
+		}
+
+		if j.status.CompareAndSwap(s, processing) {
+			return true
+		}
+	}
+}
+
+// markClosed acknowledges the job and moves it to closed.
+// It returns nil for exactly one caller; every other (concurrent) caller gets
+// ErrJobProcessing or ErrJobAlreadyClosed.
+func (j *job[T]) markClosed() error {
+	for {
+		s := j.status.Load()
+
+		switch s {
+		case processing:
+			return ErrJobProcessing
+		case closed:
+			return ErrJobAlreadyClosed
+		}
+
+		if err := j.ack(); err != nil {
+			return err
+		}
+
+		if j.status.CompareAndSwap(s, closed) {
+			return nil
+		}
+	}
 }
 
 func (j *job[T]) Wait() {
@@ -233,15 +281,10 @@ func (j *job[T]) isCloseable() error {
 // close closes the job and its associated channels.
 // the job regardless of its current state, except when locked.
 func (j *job[T]) Close() error {
-	if err := j.isCloseable(); err != nil {
+	if err := j.markClosed(); err != nil {
 		return err
 	}
 
-	if err := j.ack(); err != nil {
-		return err
-	}
-
-	j.status.Store(closed)
 	j.wg.Done()
 
 	return nil
